@@ -160,7 +160,12 @@ type TypeInv struct {
 	Props []string
 }
 
+type GhostField struct {
+	Pkg, Type, Name, TypeName string
+}
+
 type SpecFile struct {
+	Ghosts    []*GhostField
 	Path      string
 	Pkg       string
 	Contracts []*Contract
@@ -181,7 +186,7 @@ type tok struct {
 var clauseKW = map[string]bool{
 	"requires": true, "ensures": true, "modifies": true, "loop": true, "invariant": true, "decreases": true,
 	"property": true, "wraps": true, "func": true, "pred": true, "pure": true, "trusted": true, "inline": true,
-	"frame": true, "callers": true, "type": true, "package": true, "nosafety": true, "note": true, "depth": true,
+	"frame": true, "callers": true, "type": true, "package": true, "nosafety": true, "note": true, "recursion": true, "ghost": true,
 }
 
 func lexSpec(lines []string, lineNos []int) ([]tok, error) {
@@ -203,9 +208,9 @@ func lexSpec(lines []string, lineNos []int) ([]tok, error) {
 				}
 				out = append(out, tok{"int", strings.ReplaceAll(l[i:j], "_", ""), ln})
 				i = j
-			case c == '_' || c >= 'a' && c <= 'z' || c >= 'A' && c <= 'Z':
+			case c == '_' || c == '$' || c >= 'a' && c <= 'z' || c >= 'A' && c <= 'Z':
 				j := i
-				for j < len(l) && (l[j] == '_' || l[j] >= 'a' && l[j] <= 'z' || l[j] >= 'A' && l[j] <= 'Z' || l[j] >= '0' && l[j] <= '9') {
+				for j < len(l) && (l[j] == '_' || l[j] == '$' || l[j] >= 'a' && l[j] <= 'z' || l[j] >= 'A' && l[j] <= 'Z' || l[j] >= '0' && l[j] <= '9') {
 					j++
 				}
 				out = append(out, tok{"id", l[i:j], ln})
@@ -676,8 +681,20 @@ func parseSpecFile(path string, defaultPkg string) (sf *SpecFile, err error) {
 			if cur != nil {
 				cur.Notes = append(cur.Notes, s)
 			}
-		case "depth":
+		case "recursion":
 			cur.Depth = p.next().s
+		case "ghost":
+			// ghost field Type.$name T
+			if !p.isKW("field") {
+				p.fail("ghost field expected")
+			}
+			p.next()
+			tn := p.next().s
+			p.expect(".")
+			fn := p.next().s
+			ty := p.typeName()
+			sf.Ghosts = append(sf.Ghosts, &GhostField{Pkg: sf.Pkg, Type: tn, Name: fn, TypeName: ty})
+			cur = nil
 		case "frame", "callers":
 			fd := &FrameDecl{Pkg: sf.Pkg, Line: t.line, File: path, IsCall: t.s == "callers"}
 			name := p.next().s
